@@ -19,3 +19,17 @@ Theorem C04_running_crc_is_crc_of_concatenation : forall c a b,
   crc_update (crc_update c a) b = crc_update c (a ++ b).
 Proof. exact crc_update_app. Qed.
 Print Assumptions C04_running_crc_is_crc_of_concatenation.
+
+Require ZV.FieldsProof.
+
+(* the fields section (persistFieldsSection): per field a record  uvarint(len name) name uvarint(#sections)
+   { be16 type, be64 address }*, then the index  uvarint(#fields) { be64 record offset }*;  the frozen
+   reader's field_table, pointed at the index, returns exactly the names and (type, address) pairs written *)
+Theorem C04_fields_section_roundtrip : forall (pre rest : Bytes.bytes) fs,
+  pre <> nil -> List.Forall FieldsProof.wf_field fs -> (N.of_nat (length fs) < Layout.max_count)%N ->
+  (LayoutProof.nlenb pre + LayoutProof.nlenb (List.flat_map FieldsProof.enc_record fs) < 256 ^ 8)%N ->
+  Layout.field_table (pre ++ FieldsProof.enc_fields (LayoutProof.nlenb pre) fs ++ rest)
+                     (LayoutProof.nlenb pre + LayoutProof.nlenb (List.flat_map FieldsProof.enc_record fs))%N
+  = Some (List.map Some fs).
+Proof. exact FieldsProof.fields_section_roundtrip. Qed.
+Print Assumptions C04_fields_section_roundtrip.
